@@ -139,9 +139,11 @@ pub(super) fn modpow(x: &BigUint, exponent: &BigUint, modulus: &BigUint) -> BigU
 
     if modulus.is_odd() {
         // For an odd modulus, we can use Montgomery multiplication in base 2^32.
+        verif_probe!(MontyPath);
         monty_modpow(x, exponent, modulus)
     } else {
         // Otherwise do basically the same as `num::pow`, but with a modulus.
+        verif_probe!(PlainPath);
         plain_modpow(x, &exponent.data, modulus)
     }
 }
@@ -159,6 +161,7 @@ fn plain_modpow(base: &BigUint, exp_data: &[BigDigit], modulus: &BigUint) -> Big
 
     let mut base = base % modulus;
     for _ in 0..i {
+        verif_probe!(PlainSkipZeroDigit);
         for _ in 0..big_digit::BITS {
             base = &base * &base % modulus;
         }
@@ -174,6 +177,7 @@ fn plain_modpow(base: &BigUint, exp_data: &[BigDigit], modulus: &BigUint) -> Big
 
     let mut exp_iter = exp_data[i + 1..].iter();
     if exp_iter.len() == 0 && r.is_one() {
+        verif_probe!(PlainEarlyReturn);
         return base;
     }
 
